@@ -5,6 +5,10 @@ Clauses
                    at most one was requested); every ranking = non-empty, pairwise disjoint buckets whose union is exactly
                    the dataset's universe, names typed as the Dataset is documented to type them (all int when every name
                    is integer-like, else all str).  site = configuration name
+  C03.W.types      W fails ONLY through the typing of names: the consensus would be well formed if names were compared as
+                   text (e.g. Element(int 21) returned for the dataset's Element('21')); site = configuration name
+                   (on the unchanged tree: sub-problems made of integer-like names only are re-typed to int by
+                   Dataset.sub_problem_from_elements / _from_ids inside ParCons and the optimised exact algorithm)
   C03.W.crash      compute_consensus_rankings died with NameError on the absent `cplex` module (no consensus at all);
                    site = configuration name, one (clause, site) per configuration  (defects D7 / D8 of DESIGN section 4)
   C03.W.exception  compute_consensus_rankings died with any other undocumented exception;
